@@ -38,6 +38,7 @@ class CounterFlow:
         self.unbounded_fns = set()
         self.tagged = {}
         self.tagged_tmp = {}
+        self._body_cache = {}
 
     # ------------------------------------------------------------------
     def summary(self, fn, const_args=()):
@@ -114,7 +115,6 @@ class CounterFlow:
                             # the result is unwrapped or dropped, not looked at: the succeeding variant
                             eff = [(d, None) for d, tag in ce[1] if tag in ("Some", "Ok")]
                     elif ce[0] == "callee":
-                        self.summary(ce[1], ce[2])
                         eff = sorted(self.summary_tagged(ce[1], ce[2]), key=lambda x: (x[0], str(x[1])))
                         # a callee without any success path (always panics / unresolved recursion)
                         # contributes nothing on this path
@@ -164,23 +164,29 @@ class CounterFlow:
                 return o[3]
             return None
 
-        relevant = set()
-        for bb in range(body.nblocks):
-            tt = body.term(bb)
-            if tt["k"] == "switch":
-                cb0 = switch_tag_block(tt)
-                if cb0 is not None:
-                    relevant.add(cb0)
-        ret_is_call = set()
-        for bb in range(body.nblocks):
-            for st in body.blocks[bb]["s"]:
-                if st["k"] == "assign" and st["p"][0] == 0 and not st["p"][1] and st["r"]["k"] == "use":
-                    o0 = mir.strip_refs(pv.of_operand(st["r"]["o"]))
-                    if o0[0] == "call":
-                        relevant.add(o0[3])
-            tt = body.term(bb)
-            if tt["k"] == "call" and tt.get("d") and tt["d"][0] == 0 and not tt["d"][1]:
-                relevant.add(bb)
+        cache = self._body_cache.get(id(body))
+        if cache is None:
+            relevant = set()
+            sw_cb = {}
+            for bb in range(body.nblocks):
+                tt = body.term(bb)
+                if tt["k"] == "switch":
+                    cb0 = switch_tag_block(tt)
+                    sw_cb[bb] = cb0
+                    if cb0 is not None:
+                        relevant.add(cb0)
+            for bb in range(body.nblocks):
+                for st in body.blocks[bb]["s"]:
+                    if st["k"] == "assign" and st["p"][0] == 0 and not st["p"][1] and st["r"]["k"] == "use":
+                        o0 = mir.strip_refs(pv.of_operand(st["r"]["o"]))
+                        if o0[0] == "call":
+                            relevant.add(o0[3])
+                tt = body.term(bb)
+                if tt["k"] == "call" and tt.get("d") and tt["d"][0] == 0 and not tt["d"][1]:
+                    relevant.add(bb)
+            cache = (relevant, sw_cb, body)
+            self._body_cache[id(body)] = cache
+        relevant, sw_cb, _keep = cache
 
         steps = 0
         while work:
@@ -218,7 +224,7 @@ class CounterFlow:
             if t["k"] == "switch":
                 succ = self._feasible(body, pv, t, const_args, succ)
                 per_succ = {x: out for x in succ}
-                cb = switch_tag_block(t)
+                cb = sw_cb.get(b)
                 if cb is not None:
                     per_succ = {x: set() for x in succ}
                     for el in out:
